@@ -754,7 +754,11 @@ func genRequests(r *rng.R, s Spec, aliases []string, budget int, originPort stri
 		}
 	}
 	// C: HTTP/1.0, origin-form and random combinations
-	for i := 0; i < 40; i++ {
+	nrand := 40
+	if budget == 0 {
+		nrand = 400 // thorough: many more random combinations of method / host / port / credentials / form / version
+	}
+	for i := 0; i < nrand; i++ {
 		hv := hvs[r.Intn(len(hvs))]
 		cv := cvs[r.Intn(len(cvs))]
 		if r.Chance(1, 2) {
@@ -1246,7 +1250,7 @@ func main() {
 	if *replay == "" {
 		nb, nip, nh := 1500, 1500, 400
 		if *tier == "thorough" {
-			nb, nip, nh = 12000, 12000, 3000
+			nb, nip, nh = 40000, 40000, 6000
 		}
 		bc, bj := basicCases(r, nb)
 		emit("bcases", "", "bcase", "bcase_model_ok", "bcase_prop_ok", bc, bj)
